@@ -310,7 +310,8 @@ class Pool:
         if spawn_fail:
             self.spawn_fail_names.add(name)
         self.pending_names.append(name)
-        tid = self.loop.run_coro(self.sched.enqueue_task(name=name, script="job " + name, working_dir=self.ROOT, time_limit=time_limit, deps=list(deps)))
+        # "q#2" is a second task *named* q (two projects sharing a pool, or a target resubmitted after a cancel): the part after # only keeps the scripts apart
+        tid = self.loop.run_coro(self.sched.enqueue_task(name=name.split("#")[0], script="job " + name, working_dir=self.ROOT, time_limit=time_limit, deps=list(deps)))
         self.deps[tid] = list(deps)
         self.names[tid] = name
         self.history.append(("enqueue", tid))
@@ -354,5 +355,5 @@ class Pool:
         return None
 
     def log(self, name, stream):
-        f = self.world.files.get("%s/.gwf/logs/%s.%s" % (self.ROOT, name, stream))
+        f = self.world.files.get("%s/.gwf/logs/%s.%s" % (self.ROOT, name.split("#")[0], stream))
         return None if f is None else f[1]
